@@ -1,4 +1,5 @@
 """C05 — converting any supported document returns a result instead of raising."""
+import common
 import apicheck as A
 import docx as D
 
@@ -24,7 +25,7 @@ def project(r, case):
 
 
 def run(out, tier, seed, model_ok):
-    n = 1500 if tier == "quick" else 25000
+    n = common.deepen(1500 if tier == "quick" else 25000)
     cs = A.gen_cases(seed, n, PROFILE, tag="c05-")
     # comment mapping on for a third of them (comment bodies are visited only then)
     for i, c in enumerate(cs):
